@@ -176,7 +176,9 @@ func Run(c *core.Ctx) int {
 
 func genRegime(r *rand.Rand, rg *regime, n int) []tcase {
 	var cases []tcase
-	v := func(code, stream string) { cases = append(cases, tcase{Kind: "v", CC: rg.CC, Code: code, Stream: stream}) }
+	v := func(code, stream string) {
+		cases = append(cases, tcase{Kind: "v", CC: rg.CC, Code: code, Stream: stream})
+	}
 	v("", "empty")
 	// (1) codes valid by the published rule
 	nValid := n * 15 / 100
